@@ -690,8 +690,10 @@ class Gen:
         if k == "repeat":
             return ("repeat", r.choice([1, 2, 2, 3, 5]))
         if k == "within":
-            if r.random() < 0.12:
-                return ("withinf", r.choice(["5.0", "5.5", "0.5", "60.00", "1.25", "5.50"]))
+            if r.random() < 0.3:
+                # a real number of seconds: windows that share the integer part are different windows
+                return ("withinf", r.choice(["5.0", "5.5", "0.5", "60.00", "1.25", "5.50", "1.5", "1.2", "0.999", "0.001", "5.25",
+                                             "5.75", "59.5", "1.000001", "0.9"]))
             return ("within", r.choice([0, 1, 5, 5, 60, 3600]))
         a, b = sorted(r.sample(TIMES[:-1], 2), key=time_micros)
         return ("startstop", a, b)
@@ -989,9 +991,18 @@ def edit(rng, p):
         elif t == "qual":
             q = e[2]
             if x < 0.4:
-                if q[0] in ("repeat", "within"):
+                if q[0] == "repeat" or (q[0] == "within" and rng.random() < 0.5):
                     return replace_at(p, path, ("qual", e[1], (q[0], q[1] + 1))), "change-qualifier"
+                if q[0] == "within":
+                    # the same whole number of seconds and a fraction
+                    return replace_at(p, path, ("qual", e[1], ("withinf", "%d.%s" % (q[1], rng.choice(["5", "25", "999", "001"]))))), \
+                        "change-qualifier-fraction"
                 if q[0] == "withinf":
+                    whole = q[1].partition(".")[0] or "0"
+                    alts = [whole + "." + f for f in ("5", "2", "25", "75", "999", "001")
+                            if decimal.Decimal(whole + "." + f) != decimal.Decimal(q[1])]
+                    if rng.random() < 0.7:
+                        return replace_at(p, path, ("qual", e[1], ("withinf", rng.choice(alts)))), "change-qualifier-fraction"
                     return replace_at(p, path, ("qual", e[1], ("withinf", "7.75"))), "change-qualifier"
                 return replace_at(p, path, ("qual", e[1], ("startstop", q[1], TIMES[9]))), "change-qualifier"
             if x < 0.6:
@@ -1007,6 +1018,15 @@ WS_BASES = ["annual report.doc", "a b", "Program Files", "x y z", "New  Folder"]
 def near_duplicates(rng, p):
     """-> [(ast, name)]: p with ONE constant respelled / slightly changed: string constants that differ only in
     white space inside the quotes, in case, in an escaped character; numbers spelled 1 / 1.0 / +1; sets reordered"""
+    quals = [(path, e) for path, e in positions(p) if e[0] == "qual" and e[2][0] in ("within", "withinf")]
+    if quals and rng.random() < 0.3:
+        # the WITHIN window: n = n.0 = n.00, but n.2, n.5, n.999 and n + 1 are other windows
+        path, e = rng.choice(quals)
+        n = int(decimal.Decimal(str(e[2][1])))
+        alts = [(("within", n), "whole"), (("withinf", "%d.0" % n), "point-zero"), (("withinf", "%d.00" % n), "point-zero-zero"),
+                (("withinf", "%d.2" % n), "point-two"), (("withinf", "%d.5" % n), "point-five"), (("withinf", "%d.50" % n), "point-five-zero"),
+                (("withinf", "%d.999" % n), "point-999"), (("withinf", "%d.001" % n), "point-001"), (("within", n + 1), "next")]
+        return [(replace_at(p, path, ("qual", e[1], q2)), name) for q2, name in alts]
     atoms = [(path, e) for path, e in positions(p) if e[0] == "atom" and ("k", "hashes") not in e[2]]
     if not atoms:
         return []
